@@ -509,6 +509,8 @@ private:
         void stackDown(int count = 1)
         {
             stackLevel -= count;
+            if(stackLevel < -1) // "next/break" without a "for": stay outside of any loop
+                stackLevel = -1;
         }
 
         LoopStackEntry &getCurStack()
